@@ -23,7 +23,10 @@ Declined: well-formedness of produced bytes, Accept negotiation inside werkzeug,
 
 Constructs are located by role: values are followed through single-assignment locals (``local_value``), through
 straight-line helper functions the loader could not inline (``call_result_expr``, ``value_leaves``), through
-``**local_dict`` (``call_keywords``), loops over literal tables and comprehension / loop spellings.
+``**local_dict`` (``call_keywords``), loops over literal tables and comprehension / loop spellings.  A template is
+constant when it folds from literals and module constants (``fold_in_function``: a template generated from a constant
+table of field names); the (format, mimetype) lookup of adapt() may be one parallel assignment; a renderer may hand
+its error to the one function -- of this or another module -- that negotiates, adapts and returns it (``adapt_site``).
 """
 import ast
 import copy
@@ -190,14 +193,27 @@ def call_result_expr(repo, mod, fi, call):
     are single assignments.  Nodes taken from the helper carry ``_vt_mod`` (the module their global names live in).
     None when the call cannot be read that way."""
     g = _resolve_callee(repo, mod, fi, call)
-    if g is None or _is_generator(g.node) or g.node.decorator_list and not all(
+    if g is None:
+        return None
+    rets = returns_of(g)
+    if len(rets) != 1 or rets[0].value is None or _falls_off(g) or rets[0] not in g.node.body:
+        return None
+    binding = call_binding(g, call)
+    if binding is None:
+        return None
+    body = expand_expr(g, rets[0].value, rets[0])
+    return substitute_params(body, binding, g, mod, fi)
+
+
+def call_binding(g, call):
+    """parameter name -> argument expression (or ``('default', expression)``) of a call of the plain function / method
+    ``g`` (no decorators but staticmethod, no * / ** on either side, not a generator, parameters never re-bound in the
+    body); None when the call cannot be read that way."""
+    if _is_generator(g.node) or g.node.decorator_list and not all(
             isinstance(d, ast.Name) and d.id == 'staticmethod' for d in g.node.decorator_list):
         return None
     a = g.node.args
     if a.vararg or a.kwarg or any(isinstance(x, ast.Starred) for x in call.args) or any(k.arg is None for k in call.keywords):
-        return None
-    rets = returns_of(g)
-    if len(rets) != 1 or rets[0].value is None or _falls_off(g) or rets[0] not in g.node.body:
         return None
     params = [x.arg for x in a.posonlyargs + a.args]
     static = any(isinstance(d, ast.Name) and d.id == 'staticmethod' for d in g.node.decorator_list)
@@ -226,25 +242,45 @@ def call_result_expr(repo, mod, fi, call):
             binding[p] = ('default', defaults[p])
     if any(_name_stores(g, p) for p in binding):
         return None
-    body = expand_expr(g, rets[0].value, rets[0])
+    return binding
+
+
+def substitute_params(body, binding, g, mod, caller=None):
+    """The expression ``body`` of function ``g`` (already expanded: a fresh tree) with g's parameters replaced by the
+    argument expressions of a call made in module ``mod`` (by function ``caller``).  Every node is tagged with the
+    module its global names live in (``_vt_mod``) and with the function its local names live in (``_vt_fn``, a
+    qualified name); only names of ``g`` itself are replaced (an expression that went through several helpers keeps the
+    names of the other frames)."""
     for n in ast.walk(body):
         if not hasattr(n, '_vt_mod'):
             n._vt_mod = g.mod.name
+        if not hasattr(n, '_vt_fn'):
+            n._vt_fn = g.qualname
 
     class S(ast.NodeTransformer):
         def visit_Name(self, node):
-            if isinstance(node.ctx, ast.Load) and node.id in binding:
+            if isinstance(node.ctx, ast.Load) and node.id in binding and node._vt_fn == g.qualname and node._vt_mod == g.mod.name:
                 v = binding[node.id]
                 if isinstance(v, tuple):
-                    new, m = copy.deepcopy(v[1]), g.mod.name
+                    new, m, f = copy.deepcopy(v[1]), g.mod.name, g.qualname + '.<defaults>'
                 else:
-                    new, m = copy.deepcopy(v), mod.name
+                    new, m, f = copy.deepcopy(v), mod.name, caller.qualname if caller is not None else '<module>'
                 for n in ast.walk(new):
                     if not hasattr(n, '_vt_mod'):
                         n._vt_mod = m
+                    if not hasattr(n, '_vt_fn'):
+                        n._vt_fn = f
                 return ast.copy_location(new, node)
             return node
     return S().visit(body)
+
+
+def _fn_of(repo, node, default):
+    """Function whose locals the names of a tagged expression node refer to (None: unknown)."""
+    q = getattr(node, '_vt_fn', None)
+    if q is None:
+        return default
+    return _mod_of(repo, node, default.mod).functions.get(q)
 
 
 def call_keywords(fi, call, pos_names=()):
@@ -286,6 +322,101 @@ def call_keywords(fi, call, pos_names=()):
     return out, opaque
 
 
+# ---------------------------------------------------------------------------------------------- constants of a function
+_IN_PLACE = ('append', 'extend', 'insert', 'sort', 'reverse', 'pop', 'remove', 'clear', 'update', 'setdefault', 'popitem', 'add',
+             'discard', '__setitem__', '__delitem__', '__iadd__')
+
+
+def _free_names(e):
+    """Names an expression reads from the scope around it: the variables of its own comprehensions / lambdas are not
+    among them (the first ``for`` clause's iterable is evaluated outside the comprehension)."""
+    out = []
+
+    def go(n, bound):
+        if isinstance(n, ast.Name):
+            if isinstance(n.ctx, ast.Load) and n.id not in bound:
+                out.append(n.id)
+        elif isinstance(n, (ast.ListComp, ast.SetComp, ast.GeneratorExp, ast.DictComp)):
+            inner = set(bound)
+            for i, g in enumerate(n.generators):
+                go(g.iter, bound if i == 0 else set(inner))
+                inner |= names_stored(g.target)
+                for c in g.ifs:
+                    go(c, set(inner))
+            for part in ([n.key, n.value] if isinstance(n, ast.DictComp) else [n.elt]):
+                go(part, inner)
+        elif isinstance(n, ast.Lambda):
+            for d in list(n.args.defaults) + [d for d in n.args.kw_defaults if d is not None]:
+                go(d, bound)
+            go(n.body, set(bound) | set(_param_names_of_args(n.args)))
+        else:
+            for ch in ast.iter_child_nodes(n):
+                go(ch, bound)
+    go(e, frozenset())
+    return out
+
+
+def _changed_in_place(fi, name):
+    for n in walk_body(fi.node):
+        if isinstance(n, ast.Subscript) and isinstance(n.ctx, (ast.Store, ast.Del)) and norm(n.value) == name:
+            return True
+        if isinstance(n, ast.Call) and isinstance(n.func, ast.Attribute) and norm(n.func.value) == name and n.func.attr in _IN_PLACE:
+            return True
+    return False
+
+
+def fold_in_function(repo, fi, e, depth=0):
+    """Constant value of an expression of function ``fi``: it folds from literals and module-level constants
+    (``repo.fold``: comprehensions over constant tables, ``.format`` / ``%`` / ``join`` of constants, ...).  No name it
+    reads is a parameter of the function; a local it reads is bound once, by a plain assignment of such a constant,
+    and never changed in place.  Raises Unfoldable: the value (may) depend on data."""
+    if depth > 4:
+        raise Unfoldable('depth')
+    if any(isinstance(n, (ast.NamedExpr, ast.Await, ast.Yield, ast.YieldFrom)) for n in ast.walk(e)):
+        raise Unfoldable('binding / suspending expression')
+    params = _param_names(fi)
+    env = {}
+    for nm in sorted(set(_free_names(e))):
+        if nm in params:
+            raise Unfoldable('parameter %s' % nm)
+        stores = _name_stores(fi, nm)
+        if not stores:
+            continue
+        if len(stores) != 1 or not isinstance(stores[0], ast.Name):
+            raise Unfoldable('local %s' % nm)
+        st = _use_stmt(fi, stores[0])
+        if not (isinstance(st, ast.Assign) and any(t is stores[0] for t in st.targets)) or _changed_in_place(fi, nm):
+            raise Unfoldable('local %s' % nm)
+        env[nm] = fold_in_function(repo, fi, st.value, depth + 1)
+    try:
+        return repo.fold(e, fi.mod, env or None)
+    except Unfoldable:
+        raise
+    except Exception as ex:       # an operation of the folder failed on these constants: not a constant we know
+        raise Unfoldable('%s: %s' % (type(ex).__name__, ex))
+
+
+def is_function_constant(repo, fi, e, accept=None):
+    """Does ``e`` fold to a constant inside ``fi`` (see fold_in_function) -- one that ``accept`` admits?"""
+    try:
+        v = fold_in_function(repo, fi, e)
+    except Unfoldable:
+        return False
+    return accept is None or bool(accept(v))
+
+
+def inside_constant(repo, fi, node):
+    """Is the node (part of) an expression of the function that is a constant?  A ``'<{0}>'.format(name)`` inside
+    ``[... for name in _FIELDS]`` over a module-level tuple of literals interpolates no data: the whole display is
+    a constant, as if it had been written out."""
+    cur = node
+    while cur is not None and not isinstance(cur, ast.stmt):
+        if isinstance(cur, ast.expr) and is_function_constant(repo, fi, cur):
+            return True
+        cur = fi.mod.parents.get(cur)
+    return False
+
+
 # ---------------------------------------------------------------------------------------------- shared with C08
 def check_template_constancy(rep, rule):
     """In every to_* serialiser of the HTTPException family the *template* of a ``.format(...)`` / ``%`` is made of
@@ -307,9 +438,15 @@ def check_template_constancy(rep, rule):
                 return isinstance(v, str) or (isinstance(v, (list, tuple)) and all(isinstance(x, str) for x in v))
 
             def const_expr(e, depth=0):
-                """is this string-valued (or list-of-strings-valued) expression built from constants only?"""
+                """is this string-valued (or list-of-strings-valued) expression built from constants only?  Either by
+                its structure (literals, locals assembled from literals) or because it folds from literals and module
+                constants (a template generated from a constant table of field names, ...)."""
                 if depth > 8:
                     return False
+                return structurally_const(e, depth) or \
+                    (not isinstance(e, (ast.Constant, ast.Name)) and is_function_constant(repo, m, e, const_value))
+
+            def structurally_const(e, depth):
                 if isinstance(e, ast.Constant):
                     return isinstance(e.value, str)
                 if isinstance(e, ast.JoinedStr):
@@ -563,6 +700,12 @@ def check_markup_sinks(rep, repo, err, fam):
             sinks, bad = [], []
             for n_ in walk_body(m.node):
                 st = None
+                is_fmt = (isinstance(n_, ast.Call) and isinstance(n_.func, ast.Attribute) and n_.func.attr in ('format', 'format_map')) or \
+                    (isinstance(n_, ast.BinOp) and isinstance(n_.op, ast.Mod)) or isinstance(n_, ast.JoinedStr)
+                if is_fmt and inside_constant(repo, m, n_):
+                    # formatting of constants with constants (a template generated from a constant table of field
+                    # names): template text, no field of the instance is interpolated here
+                    continue
                 if isinstance(n_, ast.Call) and isinstance(n_.func, ast.Attribute) and n_.func.attr in ('format', 'format_map'):
                     sinks.append(n_)
                     st = stmt_of(err, n_)
@@ -638,33 +781,44 @@ def check_adapt(rep, repo, err, base, msm):
     if len(ps) < 2:
         raise AnalysisError('adapt: the mimetype parameter was not found')
     mp = ps[1]
+
+    def assign_pairs(s):
+        """(name, value expression or None) for every name an assignment binds; ``a, b = (x, y)`` binds element-wise
+        (the right-hand side is evaluated as a whole first: every element reads the values from before the statement)."""
+        pairs = []
+        for t in s.targets:
+            if isinstance(t, (ast.Tuple, ast.List)) and isinstance(s.value, (ast.Tuple, ast.List)) and len(t.elts) == len(s.value.elts) \
+                    and not any(isinstance(x, ast.Starred) for x in t.elts + s.value.elts):
+                for te, ve in zip(t.elts, s.value.elts):
+                    pairs += [(nm, ve if isinstance(te, ast.Name) else None) for nm in names_stored(te)]
+            else:
+                pairs += [(nm, s.value if isinstance(t, ast.Name) else None) for nm in names_stored(t)]
+        return pairs
     look = []
     for s in stmts_of(ad.node):
-        if isinstance(s, ast.Assign) and len(s.targets) == 1 and isinstance(s.targets[0], ast.Name):
-            v = s.value
+        if not isinstance(s, ast.Assign):
+            continue
+        for nm, v in assign_pairs(s):
             if isinstance(v, ast.Subscript) and _is_table(v.value) and norm(v.slice) == mp:
-                look.append((s, 'index'))
+                look.append((s, 'index', nm, v))
             elif isinstance(v, ast.Call) and isinstance(v.func, ast.Attribute) and v.func.attr == 'get' and _is_table(v.func.value) \
                     and v.args and norm(v.args[0]) == mp and not v.keywords:
-                look.append((s, 'get' if len(v.args) == 1 or (isinstance(v.args[1], ast.Constant) and v.args[1].value is None) else 'get-default'))
+                look.append((s, 'get' if len(v.args) == 1 or (isinstance(v.args[1], ast.Constant) and v.args[1].value is None) else 'get-default', nm, v))
     if len(look) != 1:
         raise AnalysisError('adapt: the lookup of the requested type in %s was not found (%d candidates)' % (TABLE, len(look)))
-    lookup, kind = look[0]
-    fv = lookup.targets[0].id
+    lookup, kind, fv, lookup_value = look[0]
     # every other (re-)binding of the format variable and of the mimetype parameter
     reb = {fv: [], mp: []}
     for s in stmts_of(ad.node):
-        if s is lookup:
-            continue
         pairs = []
         if isinstance(s, ast.Assign):
-            for t in s.targets:
-                if isinstance(t, (ast.Tuple, ast.List)) and isinstance(s.value, (ast.Tuple, ast.List)) and len(t.elts) == len(s.value.elts) \
-                        and not any(isinstance(x, ast.Starred) for x in t.elts + s.value.elts):
-                    for te, ve in zip(t.elts, s.value.elts):
-                        pairs += [(nm, ve if isinstance(te, ast.Name) else None) for nm in names_stored(te)]
-                else:
-                    pairs += [(nm, s.value if isinstance(t, ast.Name) else None) for nm in names_stored(t)]
+            for nm, v in assign_pairs(s):
+                if v is lookup_value:
+                    continue
+                if isinstance(v, ast.Name) and v.id == nm:
+                    # ``fmt, mimetype = (TABLE[mimetype], mimetype)``: the name keeps the value it had
+                    continue
+                pairs.append((nm, v))
         elif isinstance(s, (ast.AugAssign, ast.AnnAssign)):
             pairs += [(nm, None) for nm in names_stored(s.target)]
         elif isinstance(s, (ast.For, ast.AsyncFor)):
@@ -770,10 +924,12 @@ def check_adapt(rep, repo, err, base, msm):
               'body and Content-Type are not both derived from the one (format, mimetype) pair', err, ad.node)
 
 
-def negotiated_over_table(repo, err, mod, fi, expr, use_stmt):
+def negotiated_over_table(repo, err, mod, fi, expr, use_stmt, expanded=False):
     """Is ``expr`` the Accept negotiation ``<request>.accept_mimetypes.best_match(MIME_SUPPORT_MAP)`` over the errors
-    module's table -- written in place, named first, or computed by a straight-line helper?"""
-    e = expand_expr(fi, expr, use_stmt)
+    module's table -- written in place, named first, or computed by a straight-line helper?  ``<request>`` is a parameter
+    of the renderer ``fi``.  ``expanded``: the expression was brought into the renderer's terms by the caller (taken out
+    of a function the renderer delegates to, parameters substituted, nodes tagged with their frame)."""
+    e = expr if expanded else expand_expr(fi, expr, use_stmt)
     for _ in range(4):
         if isinstance(e, ast.Call) and call_tail(e) == 'best_match':
             break
@@ -787,7 +943,7 @@ def negotiated_over_table(repo, err, mod, fi, expr, use_stmt):
         return False
     recv = e.func.value if isinstance(e.func, ast.Attribute) else None
     if not (isinstance(recv, ast.Attribute) and recv.attr == 'accept_mimetypes' and isinstance(recv.value, ast.Name)
-            and recv.value.id in fi.params() and _mod_of(repo, recv.value, mod) is mod):
+            and recv.value.id in fi.params() and _mod_of(repo, recv.value, mod) is mod and _fn_of(repo, recv.value, fi) is fi):
         return False
     table = argn(e, 'matches', 0)
     # the same keys in the same order: list(T), tuple(T), T.keys(), iter(T)
@@ -801,7 +957,8 @@ def negotiated_over_table(repo, err, mod, fi, expr, use_stmt):
     if not _is_table(table):
         return False
     tm = _mod_of(repo, table, mod)
-    if tm is mod and (TABLE in _param_names(fi) or _name_stores(fi, TABLE)):
+    owner = _fn_of(repo, table, fi)      # None: evaluated at module level (a default), no locals in sight
+    if owner is not None and (TABLE in _param_names(owner) or _name_stores(owner, TABLE)):
         return False
     k, m_, obj = repo.resolve(tm, TABLE)
     return m_ is err and k == 'value'
@@ -1134,6 +1291,76 @@ def rule_a(rep, repo, err, base, fam):
     check_constructor_order(rep, repo, err, base, init, icfg)
 
 
+def adapt_site(repo, fi, ename):
+    """(hops, function, name of the error in it, its ``<error>.adapt(...)`` calls): where a renderer adapts its error.
+    It does so itself, or it hands the error -- as a plain argument -- to the one function of the analysed tree (of this
+    or of another module, possibly through a second one) that does.  hops: [(caller, name of the error in the caller,
+    call, callee, binding of the callee's parameters)] from the renderer down to that function."""
+    hops, F, E = [], fi, ename
+    for _ in range(3):
+        ac = [c for c in walk_body(F.node) if isinstance(c, ast.Call) and norm(c.func) == E + '.adapt']
+        if ac:
+            return hops, F, E, ac
+        cands = []
+        for c in walk_body(F.node):
+            if isinstance(c, ast.Call) and any(isinstance(a, ast.Name) and a.id == E for a in list(c.args) + [k.value for k in c.keywords]):
+                g = _resolve_callee(repo, F.mod, F, c)
+                if g is not None and not any(g is h[0] for h in hops) and g is not F:
+                    cands.append((c, g))
+        if len(cands) != 1:
+            break
+        c, g = cands[0]
+        binding = call_binding(g, c)
+        ps = [p for p, v in sorted((binding or {}).items()) if isinstance(v, ast.Name) and v.id == E]
+        if len(ps) != 1:
+            raise AnalysisError('%s: the error is handed to %s(...) in a way that cannot be followed' % (fi.qualname, g.qualname))
+        hops.append((F, E, c, g, binding))
+        F, E = g, ps[0]
+    raise AnalysisError('%s: the call %s.adapt(...) was not found' % (fi.qualname, ename))
+
+
+def renderer_adapts_negotiated(repo, err, mod_, fi, ename):
+    """The renderer negotiates over the errors module's table, adapts the error to the winner -- exactly once, on every
+    path that returns -- and returns that same error; in place or through the function(s) it delegates to."""
+    hops, F, E, ac = adapt_site(repo, fi, ename)
+    a0 = argn(ac[0], 'mimetype', 0)
+    if len(ac) != 1 or a0 is None:
+        return False
+    adapt_stmt = stmt_of(F.mod, ac[0])
+    if hops:
+        # the negotiation as the delegate writes it, in the renderer's terms
+        e = expand_expr(F, a0, adapt_stmt)
+        for caller, ce_, c, g, binding in reversed(hops):
+            cst = stmt_of(caller.mod, c)
+            b2 = dict((p, v if isinstance(v, tuple) else expand_expr(caller, v, cst)) for p, v in binding.items())
+            e = substitute_params(e, b2, g, caller.mod, caller)
+        if not negotiated_over_table(repo, err, mod_, fi, e, None, expanded=True):
+            return False
+    elif not negotiated_over_table(repo, err, mod_, fi, a0, adapt_stmt):
+        return False
+    # the same error comes back: the adapting function returns it, every function on the way returns it or the
+    # result of the call that adapts it
+    rets = returns_of(F)
+    if not rets or any(r.value is None or norm(r.value) != E for r in rets) or (hops and _falls_off(F)):
+        return False
+    for caller, ce_, c, g, binding in hops:
+        rets = returns_of(caller)
+        if not rets or _falls_off(caller):
+            return False
+        for r in rets:
+            if r.value is None or not (norm(r.value) == ce_ or value_origin(caller, r.value)[0] is c):
+                return False
+    # ... on every path: a return that skips adapt() leaves body and Content-Type as constructed
+    fcfg = cfg_of(F)
+    if not fcfg.must_pass(fcfg.nodes_of(adapt_stmt), fcfg.entry, fcfg.exit, normal_only=True):
+        return False
+    for caller, ce_, c, g, binding in hops:
+        ccfg = cfg_of(caller)
+        if not ccfg.must_pass(ccfg.nodes_of(stmt_of(caller.mod, c)), ccfg.entry, ccfg.exit, normal_only=True):
+            return False
+    return True
+
+
 def rule_b(rep, repo, err, app, base):
     try:
         msm = err.const(TABLE)
@@ -1151,16 +1378,7 @@ def rule_b(rep, repo, err, app, base):
               'DEFAULT_MIME %r is not a supported plain-text type' % dm, err)
     _guarded(rep, check_adapt, rep, repo, err, base, msm)
     for mod_, fi in ((err, err.func('ErrorHandler.render_error')), (app, app.func('default_render_error'))):
-        ac = [c for c in walk_body(fi.node) if isinstance(c, ast.Call) and norm(c.func) == '_error.adapt']
-        if not ac:
-            raise AnalysisError('%s: the call _error.adapt(...) was not found' % fi.qualname)
-        a0 = argn(ac[0], 'mimetype', 0)
-        ok = len(ac) == 1 and a0 is not None and negotiated_over_table(repo, err, mod_, fi, a0, stmt_of(mod_, ac[0])) and \
-            all(r.value is not None and norm(r.value) == '_error' for r in returns_of(fi)) and bool(returns_of(fi))
-        if ok:
-            # ... on every path: a return that skips adapt() leaves body and Content-Type as constructed
-            fcfg = cfg_of(fi)
-            ok = fcfg.must_pass(fcfg.nodes_of(stmt_of(mod_, ac[0])), fcfg.entry, fcfg.exit, normal_only=True)
+        ok = renderer_adapts_negotiated(repo, err, mod_, fi, '_error')
         rep.check('R09.b', fkey(fi), bool(ok), 'negotiates over MIME_SUPPORT_MAP, adapts the error to the winner and returns it' if ok else
                   '%s does not negotiate over MIME_SUPPORT_MAP / adapt / return the same error' % fi.qualname, mod_, fi.node)
     k, m_, obj = repo.resolve(app, TABLE)
